@@ -238,7 +238,8 @@ def _check_dep_coverage(ctx, model, dm):
             # leaf: empty set or {expr}
             pss = summarize(mem.node)
             ok = all(ps.term == "return" and (
-                ps.retval in (("call", "set", (), ()), ("lit", "set", (NODE,))))
+                ps.retval in (("call", "set", (), ()), ("lit", "set", ()),
+                              ("lit", "set", (NODE,))))
                 for ps in pss)
             ctx.ob(f"K/DependencyMapper/{mem.node.name}/{n.name}/leaf", ok,
                    where(mem), "leaf returns set() or {expr}" if ok else
